@@ -310,27 +310,28 @@ val consume_delims : text -> text -> nat -> nat
 type ms_state = (nat list * wgraph) * (nat * chunk list) list
 
 val ms_at :
-  prism -> (nat * text) list -> table -> text -> text -> ms_state -> nat ->
-  ms_state
+  nat -> prism -> (nat * text) list -> table -> text -> text -> ms_state ->
+  nat -> ms_state
 
-val table_ms : prism -> (nat * text) list -> table -> text -> text -> ms_state
+val table_ms :
+  nat -> prism -> (nat * text) list -> table -> text -> text -> ms_state
 
 val table_wgraph :
-  prism -> (nat * text) list -> table -> text -> text -> wgraph
+  nat -> prism -> (nat * text) list -> table -> text -> text -> wgraph
 
 val prefix_phrases : (nat * chunk list) list -> cand list
 
 val table_sentence :
-  (wgraph -> nat -> sentence option) -> prism -> (nat * text) list -> table
-  -> text -> text -> cand list option
+  (wgraph -> nat -> sentence option) -> nat -> prism -> (nat * text) list ->
+  table -> text -> text -> cand list option
 
 val table_entries :
   bool -> bool -> prism -> (nat * text) list -> table -> text -> dentry list
 
 val table_query_gen :
-  (wgraph -> nat -> sentence option) -> bool -> bool -> bool -> prism ->
-  (nat * text) list -> table -> text -> text -> cand list
+  (wgraph -> nat -> sentence option) -> bool -> bool -> bool -> nat -> prism
+  -> (nat * text) list -> table -> text -> text -> cand list
 
 val table_query :
-  (wgraph -> nat -> sentence option) -> bool -> bool -> prism -> (nat * text)
-  list -> table -> text -> text -> cand list
+  (wgraph -> nat -> sentence option) -> bool -> bool -> nat -> prism ->
+  (nat * text) list -> table -> text -> text -> cand list
